@@ -104,4 +104,23 @@ PROPS = {
             "(pinned by the repository's own Test_align_MaskUniqueMAJ)",
         ],
     },
+    "C14": {
+        "harness": [{"cmd": "c14", "n": {"quick": 1800, "thorough": 50000}}],
+        "rule": "random 0-6 row x 0-9 column alignments generated column-wise (all-gap, all-N, exact two-way ties, "
+                "mixed case, '.', '*', protein letters) x CharStats / UniqueCharacters / CharStatsSeq / CharStatsSite / "
+                "MaxCharStats (20 repeated calls must agree) / Consensus / Entropy (domain, NaN) / NbVariableSites / "
+                "InformativeSites / AvgAllelesPerSite (float compared with the exact ratio within 1 ulp) / "
+                "CountDifferences / NumGapsUniquePerSequence / NumMutationsUniquePerSequence / "
+                "NumMutationsComparedToReferenceSequence, indices in [-1, L+1]; plus EqualOrCompatible on all 17x17 "
+                "codes; non-trivial = >= 2 rows and >= 2 columns, or a compatibility probe; distinct = distinct "
+                "(op, arguments, input)",
+        "nontrivial": lambda m: (len(m.get("seqs", [])) >= 2 and len(m["seqs"][0]) >= 2) or m.get("op") == "EqualOrCompatible",
+        "assumptions": [
+            "ASCII residues (130-entry tables in the code)",
+            "not modelled in this revision: Entropy's value, Pssm, ListMutationsComparedToReferenceSequence, count "
+            "profiles and the profile-relative outputs of NumGaps/NumMutationsUniquePerSequence",
+            "spec oracle does not judge InformativeSites when a lower-case wildcard (n/x) is present, nor "
+            "NumMutationsComparedToReferenceSequence on rows with lower-case n or non-IUPAC letters",
+        ],
+    },
 }
